@@ -109,6 +109,15 @@ DepSimplify(t) ==
     [] t.op = "NOT"         -> Un("NOT", DepSimplify(t.l))
     [] OTHER                -> t
 HasDepOps(t) == OpsOf(t) \cap {"XOR", "EQUIVALENCE"} # {}
+\* NAMED DEVIATION dep-nested.  The same function copies the right operand of an XOR into its result
+\* WITHOUT simplifying it; AST.get_clauses (same dependency) then meets operators it has no case for
+\* and emits unrelated literals.  What comes out is not modelled: a failing SPLOT step is attributed
+\* to this finding only if some constraint has an XOR whose right operand contains an operator
+\* other than AND / OR / NOT.
+RECURSIVE HasRawRight(_)
+HasRawRight(t) == IF t.op = "NIL" \/ t.op \in LeafOps THEN FALSE
+                  ELSE \/ (t.op = "XOR" /\ ~(OpsOf(t.r) \subseteq {"AND", "OR", "NOT"}))
+                       \/ HasRawRight(t.l) \/ HasRawRight(t.r)
 
 ---------------------------------------------------------------------------
 (* The documented simple forms (C18) *)
